@@ -1,7 +1,10 @@
 """Builds the registry: all contracts, shapes, spec functions."""
 import sys
 
-sys.path.insert(0, "/verif") if "/verif" not in sys.path else None
+import os
+
+_ROOT = os.path.dirname(os.path.dirname(os.path.abspath(__file__)))
+sys.path.insert(0, _ROOT) if _ROOT not in sys.path else None
 from contracts import lnodes_shapes, spec
 from pyvc.contract import Registry
 
@@ -48,6 +51,7 @@ def _build(tier="quick"):
 
     c_analysis.register(reg)
     c_analysis.register_representation(reg)
+    c_analysis.register_form_ir(reg)
     from contracts import c_definitions
 
     c_definitions.register(reg)
@@ -55,6 +59,8 @@ def _build(tier="quick"):
     from contracts import c_generators
 
     c_generators.register(reg)
+    c_generators.register_expression(reg)
+    c_generators.register_scopes(reg)
     from contracts import c_formatter
 
     c_formatter.register(reg)
